@@ -161,7 +161,7 @@ theorem SegMem.inRect {p a b : Pt} (h : SegMem p a b) : pointInRect p a b = true
       constructor <;> nlinarith
 
 /-- parameter extraction along a coordinate with `a ≠ b` -/
-private theorem param_of_between {u a b : Rat} (hne : a ≠ b)
+theorem param_of_between {u a b : Rat} (hne : a ≠ b)
     (h : (a ≤ u ∧ u ≤ b) ∨ (b ≤ u ∧ u ≤ a)) :
     0 ≤ (u - a) / (b - a) ∧ (u - a) / (b - a) ≤ 1 := by
   rcases lt_or_gt_of_ne hne with hlt | hgt
@@ -311,29 +311,44 @@ theorem convex_neg {t x y : Rat} (h0 : 0 ≤ t) (h1 : t ≤ 1) (hx : x < 0) (hy 
   have := convex_pos h0 h1 (neg_pos.mpr hx) (neg_pos.mpr hy)
   nlinarith
 
+/-- The Cramer point of the two supporting lines, written from `a` along `ab`. -/
+def crossPt (a b c d : Pt) : Pt :=
+  ⟨a.x + cross c d a / (cross c d a - cross c d b) * (b.x - a.x),
+   a.y + cross c d a / (cross c d a - cross c d b) * (b.y - a.y)⟩
+
+/-- … is the same point written from `c` along `cd` (lines not parallel). -/
+theorem crossPt_on_cd {a b c d : Pt} (hD : cross a b c ≠ cross a b d) :
+    (crossPt a b c d).x = c.x + cross a b c / (cross a b c - cross a b d) * (d.x - c.x) ∧
+    (crossPt a b c d).y = c.y + cross a b c / (cross a b c - cross a b d) * (d.y - c.y) := by
+  have hD1 : cross a b c - cross a b d ≠ 0 := sub_ne_zero.mpr hD
+  constructor
+  · show a.x + cross c d a / (cross c d a - cross c d b) * (b.x - a.x)
+        = c.x + cross a b c / (cross a b c - cross a b d) * (d.x - c.x)
+    rw [cross_diff a b c d]
+    field_simp
+    unfold cross; ring
+  · show a.y + cross c d a / (cross c d a - cross c d b) * (b.y - a.y)
+        = c.y + cross a b c / (cross a b c - cross a b d) * (d.y - c.y)
+    rw [cross_diff a b c d]
+    field_simp
+    unfold cross; ring
+
+theorem crossPt_mem {a b c d : Pt}
+    (hf : cross a b c * cross a b d ≤ 0 ∧ cross a b c ≠ cross a b d)
+    (hg : cross c d a * cross c d b ≤ 0 ∧ cross c d a ≠ cross c d b) :
+    SegMem (crossPt a b c d) a b ∧ SegMem (crossPt a b c d) c d := by
+  obtain ⟨t0, t1⟩ := ratio_mem hg.1 hg.2
+  obtain ⟨s0, s1⟩ := ratio_mem hf.1 hf.2
+  obtain ⟨ex, ey⟩ := crossPt_on_cd hf.2
+  exact ⟨⟨_, t0, t1, rfl, rfl⟩, ⟨_, s0, s1, ex, ey⟩⟩
+
 /-- Crossing case, constructive direction: if the end points of each segment are on (weakly)
 different sides of the other, the Cramer point is common to both. -/
 theorem crossing_point {a b c d : Pt}
     (hf : cross a b c * cross a b d ≤ 0 ∧ cross a b c ≠ cross a b d)
     (hg : cross c d a * cross c d b ≤ 0 ∧ cross c d a ≠ cross c d b) :
-    ∃ p, SegMem p a b ∧ SegMem p c d := by
-  obtain ⟨t0, t1⟩ := ratio_mem hg.1 hg.2
-  obtain ⟨s0, s1⟩ := ratio_mem hf.1 hf.2
-  have hD1 : cross a b c - cross a b d ≠ 0 := sub_ne_zero.mpr hf.2
-  have hD2 : cross c d a - cross c d b ≠ 0 := sub_ne_zero.mpr hg.2
-  refine ⟨⟨a.x + cross c d a / (cross c d a - cross c d b) * (b.x - a.x),
-           a.y + cross c d a / (cross c d a - cross c d b) * (b.y - a.y)⟩,
-          ⟨_, t0, t1, rfl, rfl⟩, ⟨cross a b c / (cross a b c - cross a b d), s0, s1, ?_, ?_⟩⟩
-  · show a.x + cross c d a / (cross c d a - cross c d b) * (b.x - a.x)
-        = c.x + cross a b c / (cross a b c - cross a b d) * (d.x - c.x)
-    rw [cross_diff a b c d] at hD2 ⊢
-    field_simp
-    unfold cross; ring
-  · show a.y + cross c d a / (cross c d a - cross c d b) * (b.y - a.y)
-        = c.y + cross a b c / (cross a b c - cross a b d) * (d.y - c.y)
-    rw [cross_diff a b c d] at hD2 ⊢
-    field_simp
-    unfold cross; ring
+    ∃ p, SegMem p a b ∧ SegMem p c d :=
+  ⟨crossPt a b c d, crossPt_mem hf hg⟩
 
 /-- Crossing case, other direction. -/
 theorem sides_of_common {a b c d p : Pt} (hab : SegMem p a b) (hcd : SegMem p c d)
@@ -451,6 +466,102 @@ theorem collinear_case {a b c d : Pt} (hab : a ≠ b) (hc : cross a b c = 0) (hd
       rw [hcx, hdx]; linarith
     · have : b.y = a.y + (γ + s' * (δ - γ)) * (b.y - a.y) := by rw [← hs']; ring
       rw [hcy, hdy]; linarith
+
+/-- reversing the base segment negates the determinant -/
+theorem cross_rev (c d x : Pt) : cross d c x = - cross c d x := by
+  unfold cross; ring
+
+/-- Two non-parallel lines have at most one common point. -/
+theorem unique_common {a b c d x y : Pt} (hD : cross a b c ≠ cross a b d)
+    (hx1 : cross a b x = 0) (hx2 : cross c d x = 0) (hy1 : cross a b y = 0) (hy2 : cross c d y = 0) :
+    x = y := by
+  have hD1 : cross a b c - cross a b d ≠ 0 := sub_ne_zero.mpr hD
+  have ex : (x.x - y.x) * (cross a b c - cross a b d) =
+      (b.x - a.x) * (cross c d x - cross c d y) - (d.x - c.x) * (cross a b x - cross a b y) := by
+    unfold cross; ring
+  have ey : (x.y - y.y) * (cross a b c - cross a b d) =
+      (b.y - a.y) * (cross c d x - cross c d y) - (d.y - c.y) * (cross a b x - cross a b y) := by
+    unfold cross; ring
+  rw [hx1, hx2, hy1, hy2] at ex ey
+  apply Pt.ext'
+  · have : (x.x - y.x) * (cross a b c - cross a b d) = 0 := by rw [ex]; ring
+    rcases mul_eq_zero.mp this with h | h
+    · linarith
+    · exact absurd h hD1
+  · have : (x.y - y.y) * (cross a b c - cross a b d) = 0 := by rw [ey]; ring
+    rcases mul_eq_zero.mp this with h | h
+    · linarith
+    · exact absurd h hD1
+
+/-- An end point of `cd` that lies on the line `ab` while the other one does not, with `a`, `b`
+on weakly different sides of `cd`, lies on the segment `ab`. -/
+theorem endpoint_mem {a b c d : Pt} (hc : cross a b c = 0) (hd : cross a b d ≠ 0)
+    (hg : cross c d a * cross c d b ≤ 0) : SegMem c a b := by
+  have hf : cross a b c * cross a b d ≤ 0 ∧ cross a b c ≠ cross a b d := by
+    rw [hc]; exact ⟨by simp, fun h => hd h.symm⟩
+  have hg' : cross c d a ≠ cross c d b := by
+    intro h
+    have := cross_diff a b c d
+    rw [h, hc] at this
+    apply hd; linarith
+  have hm := (crossPt_mem hf ⟨hg, hg'⟩).1
+  obtain ⟨ex, ey⟩ := crossPt_on_cd hf.2
+  rw [hc] at ex ey
+  have : crossPt a b c d = c := by
+    apply Pt.ext'
+    · rw [ex]; simp
+    · rw [ey]; simp
+  rw [this] at hm
+  exact hm
+
+/-- the same for the second end point -/
+theorem endpoint_mem' {a b c d : Pt} (hd : cross a b d = 0) (hc : cross a b c ≠ 0)
+    (hg : cross c d a * cross c d b ≤ 0) : SegMem d a b := by
+  apply endpoint_mem (c := d) (d := c) hd hc
+  rw [cross_rev c d a, cross_rev c d b, neg_mul_neg]
+  exact hg
+
+/-- Membership in a segment of the line `ab` (`a ≠ b`), in terms of parameters along `ab`. -/
+theorem SegMem_param {a b c d x : Pt} (hab : a ≠ b) {γ δ ξ : Rat}
+    (hcx : c.x = a.x + γ * (b.x - a.x)) (hcy : c.y = a.y + γ * (b.y - a.y))
+    (hdx : d.x = a.x + δ * (b.x - a.x)) (hdy : d.y = a.y + δ * (b.y - a.y))
+    (hxx : x.x = a.x + ξ * (b.x - a.x)) (hxy : x.y = a.y + ξ * (b.y - a.y)) :
+    SegMem x c d ↔ (γ ≤ ξ ∧ ξ ≤ δ) ∨ (δ ≤ ξ ∧ ξ ≤ γ) := by
+  constructor
+  · rintro ⟨s, s0, s1, hx, hy⟩
+    have hξ : ξ = γ + s * (δ - γ) := by
+      apply param_inj hab
+      · rw [hxx, hcx, hdx] at hx; linarith
+      · rw [hxy, hcy, hdy] at hy; linarith
+    rcases le_total γ δ with h | h
+    · left
+      have := mul_nonneg s0 (sub_nonneg.mpr h)
+      have := mul_nonneg (sub_nonneg.mpr s1) (sub_nonneg.mpr h)
+      constructor <;> nlinarith
+    · right
+      have := mul_nonneg s0 (sub_nonneg.mpr h)
+      have := mul_nonneg (sub_nonneg.mpr s1) (sub_nonneg.mpr h)
+      constructor <;> nlinarith
+  · intro h
+    by_cases hγδ : γ = δ
+    · subst hγδ
+      have : ξ = γ := by rcases h with ⟨h1, h2⟩ | ⟨h1, h2⟩ <;> linarith
+      subst this
+      refine ⟨0, le_refl _, by norm_num, ?_, ?_⟩
+      · rw [hxx, hcx]; ring
+      · rw [hxy, hcy]; ring
+    · obtain ⟨s0, s1⟩ := param_of_between hγδ h
+      have hne : δ - γ ≠ 0 := fun h' => hγδ (by linarith)
+      have hs : (ξ - γ) / (δ - γ) * (δ - γ) = ξ - γ := div_mul_cancel₀ _ hne
+      refine ⟨(ξ - γ) / (δ - γ), s0, s1, ?_, ?_⟩
+      · rw [hxx, hcx, hdx]
+        have : (ξ - γ) / (δ - γ) * (a.x + δ * (b.x - a.x) - (a.x + γ * (b.x - a.x)))
+            = (ξ - γ) / (δ - γ) * (δ - γ) * (b.x - a.x) := by ring
+        rw [this, hs]; ring
+      · rw [hxy, hcy, hdy]
+        have : (ξ - γ) / (δ - γ) * (a.y + δ * (b.y - a.y) - (a.y + γ * (b.y - a.y)))
+            = (ξ - γ) / (δ - γ) * (δ - γ) * (b.y - a.y) := by ring
+        rw [this, hs]; ring
 
 theorem lineLine_def (a b c d : Pt) :
     lineLine a b c d =
